@@ -64,6 +64,13 @@ def getOrCreateRange (l : Labels) (start length : Nat) : TM Labels := do
 /-- `try_get` -/
 def tryGet (l : Labels) (pc : Nat) : TM Unit := guard (l.has pc)
 
+/-- labels at the offsets `0 … k-1`, one `get_or_add_unchecked` each (used by the witness of site 2) -/
+def addRange (l : Labels) : Nat → TM Labels
+  | 0 => pure l
+  | k + 1 => do
+    let l ← addRange l k
+    l.addUnchecked k
+
 end Labels
 
 /-! ## cursor over the bytecode -/
@@ -92,11 +99,11 @@ def take (k : Nat) (c : Cur) : TM (Bytes × Cur) :=
 
 def u8 (c : Cur) : TM (Nat × Cur) := do
   let (b, c) ← c.take 1
-  match b with | [a] => pure (a, c) | _ => fail
+  match b with | [a] => pure (byte a, c) | _ => fail
 
 def u16 (c : Cur) : TM (Nat × Cur) := do
   let (b, c) ← c.take 2
-  match b with | [a, b] => pure (a * 256 + b, c) | _ => fail
+  match b with | [a, b] => pure (byte a * 256 + byte b, c) | _ => fail
 
 def i16 (c : Cur) : TM (Int × Cur) := do
   let (n, c) ← c.u16
@@ -104,7 +111,7 @@ def i16 (c : Cur) : TM (Int × Cur) := do
 
 def i32 (c : Cur) : TM (Int × Cur) := do
   let (b, c) ← c.take 4
-  match b with | [a, b, x, d] => pure (toI32 (((a * 256 + b) * 256 + x) * 256 + d), c) | _ => fail
+  match b with | [a, b, x, d] => pure (toI32 (((byte a * 256 + byte b) * 256 + byte x) * 256 + byte d), c) | _ => fail
 
 /-- `skip(n)` = `seek(SeekFrom::Current(n))`: no bounds check -/
 def skip (k : Nat) (c : Cur) : Cur := { c with pos := c.pos + k, rest := c.rest.drop k }
